@@ -188,7 +188,8 @@ def add_pending(rng, x):
 
 
 def rand_contractible(rng, sym, fermi=False, static=True, dtype="float64", keep=0.7,
-                      max_ndim=3, ncon=None, pending=False, parities=(None, None), max_size=2):
+                      max_ndim=3, ncon=None, pending=False, parities=(None, None), max_size=2,
+                      share_objects=False):
     """Pair (a, b, axes_a, axes_b): `ncon` index pairs match (same table, opposite direction),
     scattered over random axis positions of both operands."""
     na = rng.randint(1, max_ndim)
@@ -204,6 +205,13 @@ def rand_contractible(rng, sym, fermi=False, static=True, dtype="float64", keep=
     for k in range(ncon):
         ia[axes_a[k]] = shared[k]
         ib[axes_b[k]] = shared[k].conj()
+    if share_objects and ncon:
+        # the SAME BlockIndex object on a contracted axis and on a free axis of an operand (equal index
+        # objects are interchangeable by value; anything keyed by object identity must not notice)
+        for lst, axes in ((ia, axes_a), (ib, axes_b)):
+            free = [q for q in range(len(lst)) if lst[q] is None]
+            if free and rng.random() < 0.8:
+                lst[rng.choice(free)] = lst[rng.choice(axes)]
     ia = [ix if ix is not None else rand_index(rng, sym, 3, max_size) for ix in ia]
     ib = [ix if ix is not None else rand_index(rng, sym, 3, max_size) for ix in ib]
     a = rand_array(rng, sym, indices=ia, fermi=fermi, static=static, dtype=dtype, keep=keep,
